@@ -9,4 +9,6 @@ for k in 1 2 3; do
   echo "=== $P-$n"
   if [ -f $M/demo.rs ]; then /verif/tools/confirm_mutant.sh /tmp/wt-$P $M "$FEAT" 2>&1 | tail -2; else /verif/tools/confirm_sh.sh /tmp/wt-$P $M 2>&1 | tail -2; fi
   d=/verif/seeded/$P-$n; mkdir -p $d; cp $M/patch.diff $M/notes.md $d/ 2>/dev/null; cp $M/demo.rs $M/demo.sh $d/ 2>/dev/null
+  # auxiliary files of a demonstration (helper scripts, raw headers, demo workspaces without build output)
+  for f in $M/*; do b=$(basename $f); case $b in patch.diff|notes.md|demo.rs|demo.sh|target) ;; *) if [ -d $f ]; then rsync -a --exclude target --exclude Cargo.lock $f $d/; else cp $f $d/; fi;; esac; done
 done
